@@ -421,6 +421,100 @@ def applySugar (sg : Sugar) (isUnit : Bool) (o : Out DKey DVal DKey) : Out DKey 
     { o with ret := ret', events := dropEv ++ o.events, calls := o.calls + dropEv.length }
   | _, _ => o
 
+
+/-! ### operations composed in the driver from model functions
+
+Crate items that are the SAME code as a modelled function at another type instance (sets of
+references) or std glue around modelled functions.  They are run here through the model's own
+definitions; nothing is re-defined. -/
+
+/-- the generic branch of `Micromap.step` for a computation composed in the driver. -/
+def customStep (sys : Sys DKey DVal DKey) (tm ts : List Nat)
+    (f : Sys DKey DVal DKey → Res (Sys DKey DVal DKey) (RV DKey DVal)) :
+    Sys DKey DVal DKey × Out DKey DVal DKey :=
+  let calls0 := sys.w.calls
+  let sys0 : Sys DKey DVal DKey := { sys with w := { sys.w with events := [] } }
+  match f sys0 with
+  | .ok r s =>
+    ({ s with w := { s.w with inject := none } },
+     { outcome := .ok, ret := r, events := s.w.events, calls := s.w.calls - calls0,
+       touchedMaps := tm, touchedSets := ts })
+  | .panic c s =>
+    ({ s with w := { s.w with inject := none } },
+     { outcome := .panic c, ret := .unit, events := s.w.events, calls := s.w.calls - calls0,
+       touchedMaps := tm, touchedSets := ts })
+  | .ub => (sys0, { outcome := .ub, ret := .unit, events := [], calls := 0, touchedMaps := tm, touchedSets := ts })
+
+def keysOfRaw' (r : Raw DKey Unit) : List DKey :=
+  (List.range r.len).filterMap fun i => (r.slots i).map (·.1)
+
+/-- `Default for Map / Set / Iter / IterMut / Keys / Values / ValuesMut / IntoIter / IntoKeys /
+    IntoValues`: the empty container (`Raw.new cap`) and the model's iterators over it; reported as
+    `[len, capacity, (next, len) per iterator]`. -/
+def defaultsStep (E : Env DKey DVal DKey) (sys : Sys DKey DVal DKey) (isMap : Bool) (i : Nat) :
+    Sys DKey DVal DKey × Out DKey DVal DKey :=
+  customStep sys (if isMap then [i] else []) (if isMap then [] else [i]) fun sys0 =>
+    if isMap then
+      let cap := (sys0.maps i).cap
+      let st0 : St DKey DVal DKey := ⟨Raw.new cap, sys0.w⟩
+      let borrow (kind : IterKind) : List (RV DKey DVal) :=
+        match iterOp render kind id [.next, .len] st0 with
+        | .ok l _ => l | _ => [.tag "?"]
+      let owning (kind : IntoKind) : List (RV DKey DVal) :=
+        match intoIterOp E kind 1 false st0 with
+        | .ok (items, rem, _) _ => [if items.isEmpty then .none else .tag "+", .nat rem]
+        | _ => [.tag "?"]
+      .ok (.list ([.nat st0.r.len, .nat st0.r.cap] ++ borrow .iter ++ borrow .keys ++ borrow .values ++
+        borrow .iter_mut ++ borrow .values_mut ++ owning .pairs ++ owning .keys ++ owning .values)) sys0
+    else
+      let r : Raw DKey Unit := Raw.new (sys0.sets i).cap
+      .ok (.list [.nat r.len, .nat r.cap]) sys0
+
+/-- `Extend<&T> for Set<T, N>` (`T: Copy`): `self.extend(iter.copied())`.  Run on a scratch set of
+    plain numbers (class = the number, lawful equality whatever the case says, no drop glue, no
+    instrumentation): the model's `insert` for the initial elements, then `extendLoop`. -/
+def extendRefStep (sys : Sys DKey DVal DKey) (i : Nat) (init xs : List Nat) :
+    Sys DKey DVal DKey × Out DKey DVal DKey :=
+  let F := (mkEnv .lawful).toUnit
+  let mk (c : Nat) : DKey × Unit := (⟨c, 0⟩, ())
+  let w : World DKey Unit DKey := ({ profile := sys.w.profile, nextId := 100000 } : World DKey DVal DKey).toUnit
+  let prog : SM DKey Unit DKey Unit := do
+    for x in init do
+      let _ ← insert F (mk x).1 ()
+    extendLoop F false (xs.map mk)
+  let out (oc : Outcome) (r : RV DKey DVal) : Out DKey DVal DKey :=
+    { outcome := oc, ret := r, events := [], calls := 0, touchedSets := [i] }
+  match prog ⟨Raw.new (sys.sets i).cap, w⟩ with
+  | .ok _ s => (sys, out .ok (.list [.nat s.r.len, .list ((keysOfRaw' s.r).map fun k => .nat k.cls)]))
+  | .panic c _ => (sys, out (.panic c) .unit)
+  | .ub => (sys, out .ub .unit)
+
+def keysOfRaw (r : Raw DKey Unit) : List (DKey × Unit) :=
+  (List.range r.len).filterMap fun i => r.slots i
+
+/-- `Set<&T, N>::difference_ref`: both operands are first collected into sets of references
+    (`FromIterator`, i.e. the model's `from_iter` on the same key objects — references have no
+    drop glue, so the scratch sets are simply discarded), then `DifferenceRef` is `Difference`
+    at `T = &Key` (the model's `algOp .difference`). -/
+def diffRefStep (E : Env DKey DVal DKey) (sys : Sys DKey DVal DKey) (i o : Nat) (script : List IterCmd) :
+    Sys DKey DVal DKey × Out DKey DVal DKey :=
+  customStep sys [] [i, o] fun sys0 =>
+    let a := sys0.sets i
+    let b := sys0.sets o
+    let F := E.toUnit
+    match from_iter F false (keysOfRaw a) ⟨Raw.new a.cap, sys0.w.toUnit⟩ with
+    | .ub => .ub
+    | .panic c s => .panic c { sys0 with w := sys0.w.mergeUnit s.w }
+    | .ok _ s1 =>
+      match from_iter F false (keysOfRaw b) ⟨Raw.new b.cap, s1.w⟩ with
+      | .ub => .ub
+      | .panic c s => .panic c { sys0 with w := sys0.w.mergeUnit s.w }
+      | .ok _ s2 =>
+        match algOp F render.dbgK .difference s1.r s2.r script ⟨s1.r, s2.w⟩ with
+        | .ub => .ub
+        | .panic c s => .panic c { sys0 with w := sys0.w.mergeUnit s.w }
+        | .ok l s3 => .ok (RV.castU (.list l)) { sys0 with w := sys0.w.mergeUnit s3.w }
+
 structure CaseCfg where
   capM : Nat → Nat
   capS : Nat → Nat
@@ -477,6 +571,24 @@ partial def loop (profile : Profile) (h : IO.FS.Stream) (out : IO.FS.Stream) (st
       loop profile h out st
   | _ =>
     let (toks, sg) := desugar toks
+    -- operations composed in the driver
+    let customOut : Option (Sys DKey DVal DKey × Out DKey DVal DKey) :=
+      match toks with
+      | [reg, "alg", "difference_ref", o, script] =>
+        match parseSetReg? reg, parseSetReg? o, parseScript? script with
+        | some i, some j, some sc => some (diffRefStep st.env st.sys i j sc)
+        | _, _, _ => none
+      | [reg, "extend_ref", init, xs] =>
+        match parseSetReg? reg, (parseList? init).bind (·.mapM String.toNat?),
+              (parseList? xs).bind (·.mapM String.toNat?) with
+        | some i, some a, some b => some (extendRefStep st.sys i a b)
+        | _, _, _ => none
+      | [reg, "defaults"] => (parseReg? reg).map fun (isMap, i) => defaultsStep st.env st.sys isMap i
+      | _ => none
+    if let some (sys', o) := customOut then
+      out.putStrLn (outLine sys' o false)
+      loop profile h out { st with sys := sys' }
+    else
     match parseOp? toks with
     | none =>
       out.putStrLn "bad-op"
